@@ -45,12 +45,14 @@ pub fn row<const NC: usize, const F: u64>(i: &mut Inp) -> Out {
         other.push(o);
         k += 1;
     }
-    let root = i.felt();
-    let _unused = i.u64();
+    let root_any = i.felt();
+    let honest = i.u64() & 1 == 1;
     // friendly-layer count concrete per instance (0: masked row hash, 1: Poseidon): keeps the
     // byte-by-byte `flat_map(..to_vec())` path of the real code out of the Poseidon instances
     let f = F;
     let want = row_hash(&cells, f >= 1);
+    // committed root: the honest one (computed, replays natively) or any value (symbolic flag)
+    let root = if honest { want } else { root_any };
     let r = table_decommit(table_commitment(NC as u64, 0, f, root), &[Felt::ZERO], Decommitment { values: cells }, no_witness(Vec::new()));
     let mut ok = check(r.is_ok() == (root == want), "row accepted iff commitment == H_row(cells * R)");
     // binding form: the committed row is `cells`; any different row must be rejected
